@@ -248,7 +248,7 @@ func rulesC18(c *Ctx) {
 		if !p.InPkg(fn, "resources") || fn.Decl.Body == nil || p.methodOf(fn, "resources.TrackedResource") {
 			continue
 		}
-		if !ast.IsExported(fn.Decl.Name.Name) && !calledFromExported(p, fn) {
+		if !ast.IsExported(fn.Decl.Name.Name) && !p.standsForExported[fn] && !calledFromExported(p, fn) {
 			continue
 		}
 		params := map[types.Object]bool{}
@@ -294,7 +294,7 @@ func rulesC18(c *Ctx) {
 				}
 				return false
 			}))
-			if !ok && !ast.IsExported(fn.Decl.Name.Name) {
+			if !ok && !ast.IsExported(fn.Decl.Name.Name) && !p.standsForExported[fn] {
 				// unexported helper: every caller must pass a non-nil value
 				ok = helperCallersNonNil(p, fn, obj)
 			}
